@@ -46,6 +46,7 @@ import (
 const nVals = 4
 const flushRounds = 48 // barrier hand-offs after an event that only makes a channel ready
 const watchdog = 8 * time.Second
+const haltGrace = 30 * time.Millisecond
 
 // ---------------------------------------------------------------- output items (see SMWire.v)
 const (
@@ -552,6 +553,11 @@ func (h *harness) settleSM(stopAfterFin bool, flush int, consumed func() bool) b
 				return true
 			}
 		case <-h.sm.VerifKernelDone():
+			// The kernel goroutine is gone: it returned, or it is panicking (the deferred close of
+			// kernelDone runs first, then the runtime prints the panic and kills the process). Give
+			// a dying process time to die so that no later event is attributed to a dead machine;
+			// the driver additionally treats the last HALT of a process that died as the panic.
+			time.Sleep(haltGrace)
 			h.rec.SM(oHalt)
 			h.halted = true
 			return true
@@ -606,8 +612,9 @@ func (h *harness) settle(stopAfterFin bool, flush int, consumed func() bool) {
 	if ok {
 		ok = h.settleCM()
 		// a request may have been handed over / an answer forwarded: settle the kernel again
-		if ok {
-			ok = h.settleSM(stopAfterFin, 0, nil)
+		// (not in the catch-up loop, where the kernel reads nothing but the finalization response)
+		if ok && !stopAfterFin {
+			ok = h.settleSM(false, 0, nil)
 		}
 	}
 	if !ok {
@@ -975,6 +982,14 @@ func main() {
 			}
 			h = &harness{w: w, rec: &recorder{}, hasSigner: xs[2] == 1,
 				aStore: tmmemstore.NewActionStore(), fStore: tmmemstore.NewFinalizationStore(), sStore: tmmemstore.NewStateMachineStore()}
+			// the engine stores the genesis finalization at InitialHeight-1 before the state machine starts
+			gh, err := h.genesis().Header(w.fx.HashScheme)
+			if err != nil {
+				panic(err)
+			}
+			if err := h.fStore.SaveFinalization(context.Background(), 0, 0, string(gh.Hash), w.valset(15), string(hashOf(1))); err != nil {
+				panic(err)
+			}
 			fmt.Fprintf(out, "T %d\n", xs[1])
 			out.Flush()
 			continue
